@@ -198,6 +198,33 @@ def corpus():
     return rs
 
 
+def parser_entry_reuse(R):
+    """ONE Parser given one entry cell after the other (same workbook): every slice must be the slice a fresh Parser gives for that entry
+    cell - also when two entry cells are spelled with integers whose digits read alike ((1, 11) / (11, 1)) or as 'B','2' / 'B', 2."""
+    import os
+    from openpyxl import Workbook
+    d = os.path.join(C.BUILD, 'c03')
+    os.makedirs(d, exist_ok=True)
+    wb = Workbook()
+    ws = wb.active
+    ws.title = 'S0'
+    for a, v in {'A1': 1, 'A2': 5, 'B12': '=A1+1', 'L2': '=A2+2', 'B2': '=A1*3', 'B3': '=A2*4', 'V4': '=B2+B3', 'C23': '=L2*2'}.items():
+        ws[a] = v
+    path = os.path.join(d, 'entries_%d.xlsx' % os.getpid())
+    wb.save(path)
+    entries = [('S0', 1, 11), ('S0', 11, 1), ('S0', 'B', '2'), ('S0', 'B', 2), ('S0', 2, 13), ('S0', 21, 3), ('S0', 1, 11)]
+    fresh = [I.Parser().set_excel_file_path(path).set_entrypoint_cell(I.Cell(*e)).get_translation() for e in entries]
+    for order in (entries, list(reversed(entries))):
+        pr = I.Parser().set_excel_file_path(path)
+        for e in order:
+            R.count(('parser_entries', e, order is entries), True)
+            got = pr.set_entrypoint_cell(I.Cell(*e)).get_translation()
+            if got != fresh[entries.index(e)]:
+                R.violation('one Parser, entry cells set one after the other %r: the slice for the entry cell %r is not the slice a fresh Parser gives for it'
+                            % ([x[1:] for x in order], e[1:]), {'recipe': {'kind': 'parser_entries'}, 'input_found': True})
+                return
+
+
 def run(R, tier):
     R.coverage['rule'] = ('random dependency graphs of 3-10 stored cells over 1-3 sheets (single refs incl. $ and quoted/unquoted sheet prefixes, '
                           'column and rectangular ranges overlapping formula cells, shared sub-expressions, IF), 25% with back edges (cycles, self '
@@ -219,6 +246,7 @@ def run(R, tier):
     for c in cases:
         if c['rel_fail']:
             R.violation('slice is not faithful: ' + c['rel_fail'], {'recipe': c['recipe'], 'input_found': True})
+    parser_entry_reuse(R)
     C.correspond(R, HEADER, 'report', cases, 'c03', 'CellTranslator._set_cell_to_context / translate / translate_file and the reference translators (dependency recursion)')
     R.assumptions += ['formulas are abstracted to their dependency lists (den_ext: a formula looks only at the cells it refers to); the value-level '
                       'faithfulness of the slice is additionally checked on the implementation itself for every generated graph']
@@ -229,6 +257,11 @@ def replay(R, rp):
     if rc is None:
         print('nothing to replay: ' + str(rp.get('broken')))
         return 1
+    if rc.get('kind') == 'parser_entries':
+        parser_entry_reuse(R)
+        for w, _ in R.violations:
+            print(w)
+        return 1 if R.violations else 0
     C.build(TARGETS)
     c = make_case(rc)
     rows = C.eval_report(HEADER, [c['coq']], 'report', 'c03_replay')
